@@ -126,7 +126,8 @@ def r183(db, ctx):
                     descr = []
                     for d in range(2):
                         ext, strd = sh[2][d], sd[2][d]
-                        kind = 'cols' if ext[0] == 'call' and ext[1].endswith('::columns') else 'rows' if ext[0] == 'call' and ext[1].endswith('::rows') else None
+                        kind = 'cols' if (ext[0] == 'call' and ext[1].endswith('::columns')) or (ext[0] == 'kc' and str(ext[1]).endswith('Unsigned::USIZE')) \
+                            else 'rows' if ext[0] == 'call' and ext[1].endswith('::rows') else None
                         ls = X.lin(strd)
                         atoms = [k for k in ls if k != '']
                         has_stride = any('::stride(' in k for k in atoms)
